@@ -47,7 +47,8 @@ type C09Case struct {
 	// backoff part: outcome script per primary id of a probe queue controller
 	Script      map[string][]string `json:"script,omitempty"` // ok | error | requeue | requeue-err | skip | panic
 	Concurrency int                 `json:"concurrency,omitempty"`
-	Touch       []WriteOp           `json:"touch,omitempty"` // external writes during the run
+	WorkMs      int                 `json:"work_ms,omitempty"` // virtual duration of every scripted reconcile
+	Touch       []WriteOp           `json:"touch,omitempty"`   // external writes during the run
 }
 
 type c09 struct{}
@@ -128,6 +129,7 @@ func (c09) Gen(seed uint64, tier string) Case {
 	}
 	c.Part = "backoff"
 	c.Concurrency = 1 + r.Intn(3)
+	c.WorkMs = []int{0, 0, 300, 2500, 6000}[r.Intn(5)]
 	c.Script = map[string][]string{}
 	nids := 1 + r.Intn(3)
 	for i := 0; i < nids; i++ {
@@ -506,6 +508,8 @@ type scriptedQ struct {
 	kinds  map[string][]string
 	sim    *simrt.Sim
 	conc   int
+	workMs int
+	ends   map[string][]time.Duration
 }
 
 func optionalUint(n int) optional.Optional[uint] { return optional.Some(uint(n)) }
@@ -533,6 +537,12 @@ func (q *scriptedQ) Reconcile(_ context.Context, _ *zap.Logger, _ controller.QRu
 	q.times[id] = append(q.times[id], q.sim.Now())
 	q.kinds[id] = append(q.kinds[id], outcome)
 	simrt.Yield("scripted.reconcile")
+	if q.workMs > 0 {
+		simrt.Sleep(time.Duration(q.workMs) * time.Millisecond)
+	}
+	if q.ends != nil {
+		q.ends[id] = append(q.ends[id], q.sim.Now())
+	}
 	switch outcome {
 	case "error":
 		return errScripted
@@ -576,7 +586,7 @@ func runItemBackoff(t *testing.T, prop string, c *C09Case, trace bool) *Outcome 
 				return
 			}
 		}
-		sq := &scriptedQ{script: c.Script, calls: map[string]int{}, times: map[string][]time.Duration{}, kinds: map[string][]string{}, sim: s, conc: c.Concurrency}
+		sq := &scriptedQ{script: c.Script, calls: map[string]int{}, times: map[string][]time.Duration{}, kinds: map[string][]string{}, sim: s, conc: c.Concurrency, workMs: c.WorkMs, ends: map[string][]time.Duration{}}
 		if err := w.RT.RegisterQController(sq); err != nil {
 			out.HarnessErr = err.Error()
 			return
@@ -628,6 +638,10 @@ func runItemBackoff(t *testing.T, prop string, c *C09Case, trace bool) *Outcome 
 			for n := 0; n+1 < len(sq.times[id]); n++ {
 				kind := sq.kinds[id][n]
 				gap := sq.times[id][n+1] - sq.times[id][n]
+				// a requested delay / a retry backoff counts from the moment the reconcile returned
+				if n < len(sq.ends[id]) {
+					gap = sq.times[id][n+1] - sq.ends[id][n]
+				}
 				touched := false
 				for _, tt := range touchAt[id] {
 					if tt >= sq.times[id][n] && tt <= sq.times[id][n+1] {
@@ -664,7 +678,9 @@ func runItemBackoff(t *testing.T, prop string, c *C09Case, trace bool) *Outcome 
 				}
 			}
 		}
-		if len(firstGaps) > 0 && len(deepGaps) > 0 {
+		// with a non-zero reconcile duration the observed gaps include waiting for a busy worker (which can only lengthen
+		// them): the growth comparison is made in the zero-duration runs only
+		if c.WorkMs == 0 && len(firstGaps) > 0 && len(deepGaps) > 0 {
 			maxFirst, minDeep := firstGaps[0], deepGaps[0]
 			for _, g := range firstGaps {
 				if g > maxFirst {
